@@ -4,7 +4,7 @@ import core
 from props import collector_common as cc
 
 ID = 'C06'
-EXTRACT = ['collector', 'frames', 'collector_time']
+EXTRACT = ['collector', 'frames', 'collector_time', 'collector_deferred']
 LEAN_TARGETS = ['DeepModel.Props.C06']
 AUDIT = 'DeepModel/Audit/C06.lean'
 DRIVER = 'DeepModel/Driver/C05.lean'
@@ -38,7 +38,10 @@ def gen(rng, tier):
         r = rng.random()
         n = rng.choice([120, 250]) if big and rng.random() < 0.08 else None
         lim = cc.gen_limits(rng, small=rng.random() < 0.3)
-        if r < 0.45:
+        if r < 0.012:
+            # a huge mapping while other values wait in the search: nothing else may be lost
+            yield cc.gen_huge(rng)
+        elif r < 0.45:
             c = cc.gen_case(rng, lim=lim, nobj=n)
             c['objs'] = exotic(rng, c['objs'])
             if rng.random() < 0.08 and not any(nm in ('self', 'rest') for nm, _ in c['locals']):
@@ -188,6 +191,10 @@ def oracle(case, obs):
     if live is None:
         raise core.Infra('oracle called without the live objects of its evaluation')
     v = cc.judge_total(case, obs, live)
+    if case.get('stream') == 'huge':
+        # ... and nothing that waited in the search while the huge mapping was expanded is lost: children of the later locals
+        for ai, s in cc.snapshots_by_action(case, obs):
+            v += [f'tp{ai}: ' + x for x in cc.judge_bounds(case, obs, live, ai, s)]
     # "every other variable intact": every reference of every snapshot resolves to the entry of ITS object
     for ai, s in cc.snapshots_by_action(case, obs):
         v += [f'tp{ai}: ' + x for x in cc.judge_identity(case, obs, live, ai, s)]
@@ -195,7 +202,14 @@ def oracle(case, obs):
     return v
 
 
-model_request = cc.model_request
+def model_request(case, obs):
+    if case.get('stream') == 'huge':
+        # oracle only: the interpreted driver needs minutes for a 10 000-entry mapping (quadratic list appends of the
+        # work-list model); the model was run on such cases by hand and agrees
+        return None
+    return cc.model_request(case, obs)
+
+
 compare = cc.compare
 shrink = cc.shrink_case
 
@@ -214,4 +228,4 @@ def label(case, obs):
 
 
 def nontrivial(case, obs):
-    return special(case) or len(case['actions']) > 1
+    return special(case) or len(case['actions']) > 1 or case.get('stream') == 'huge'
